@@ -13,6 +13,7 @@ import pandas as pd
 from tabulate import tabulate
 
 from glotaran.io import load_parameters
+from glotaran.parameter.parameter import PARAMETER_EXPRESSION_REGEX
 from glotaran.parameter.parameter import Parameter
 from glotaran.utils.ipython import MarkdownStr
 from glotaran.utils.sanitize import pretty_format_numerical
@@ -315,15 +316,26 @@ class Parameters:
         ValueError
             Raised if an expression evaluates to a non-numeric value.
         """
+        updated: set[str] = set()
+
+        def update(parameter: Parameter):
+            if parameter.expression is None or parameter.label in updated:
+                return
+            updated.add(parameter.label)
+            # Update the referenced parameters first, they may be declared later.
+            for match in PARAMETER_EXPRESSION_REGEX.findall(parameter.expression):
+                if self.has(match[0]):
+                    update(self.get(match[0]))
+            value = self._evaluator(parameter.transformed_expression)
+            if not isinstance(value, (int, float)):
+                raise ValueError(
+                    f"Expression '{parameter.expression}' of parameter '{parameter.label}' "
+                    f"evaluates to non numeric value '{value}'."
+                )
+            parameter.value = value
+
         for parameter in self.all():
-            if parameter.expression is not None:
-                value = self._evaluator(parameter.transformed_expression)
-                if not isinstance(value, (int, float)):
-                    raise ValueError(
-                        f"Expression '{parameter.expression}' of parameter '{parameter.label}' "
-                        f"evaluates to non numeric value '{value}'."
-                    )
-                parameter.value = value
+            update(parameter)
 
     def get_label_value_and_bounds_arrays(
         self, exclude_non_vary: bool = False
